@@ -145,7 +145,15 @@ def run(ck, prog, ctx):
         for nm in ("set_default_categories", "set_default_modifier"):
             calls = [(bi, t) for bi, t in bd.calls() if t.callee.res == ONT + nm]
             ok = False
-            for bi, t in calls:
+            # combinator form (`a().and_then(|()| b()).map(|()| ont)`): the setter's error is the error of the returned Result
+            fam_calls = [(fb, bi) for fb in prog.family(bd) for bi, t in fb.calls() if t.callee.res == ONT + nm]
+            ret_err = pvn.of_return(bd, (("errval",),))
+            if fam_calls and all(any(a[0] == "call" and a[3] == fb.id and a[4] == bi for a in ret_err) for fb, bi in fam_calls):
+                ok = True
+            calls = calls or [(bi, fb.blocks[bi].term) for fb, bi in fam_calls]
+            for bi, t in ([] if ok else calls):
+                if not any(t is t2 for _, t2 in bd.calls()):
+                    continue
                 for sbi in sorted(bd.reach):
                     x = bd.blocks[sbi].term
                     if x.k == "switch" and any(a[0] == "call" and a[4] == bi and a[3] == bd.id for a in pvn.of_operand(bd, x.discr)):
